@@ -422,6 +422,47 @@ def make_alphabet():
     return get_moltype("dna").alphabet.get_word_alphabet(2)
 
 
+def make_alphabet_char():
+    from cogent3 import get_moltype
+
+    return get_moltype("dna").alphabet  # old-style CharAlphabet in the moltype's standard order
+
+
+def alphabet_proj(a):
+    d = static_proj(a)
+    motifs = [str(m) for m in a]
+    d["order"] = motifs
+    try:
+        d["indices"] = [int(i) for i in a.to_indices(motifs[::-1] + motifs[:2])]
+    except Exception as ex:
+        d["indices"] = type(ex).__name__
+    return d
+
+
+# states of an alphabet: the SAME motifs in another order is a different alphabet (the index of every motif differs)
+ALPHA_OPS = {
+    "reordered": lambda a: a.get_subset([m for m in "ACGT" if m in a] or list(a)[::-1]) if len(list(a)[0]) == 1 else a.__class__(list(a)[::-1], moltype=a.moltype),
+    "words2": lambda a: a.get_word_alphabet(2),
+    "with_gap": lambda a: a.with_gap_motif(),
+}
+
+
+def make_submodel_user():
+    """a model that is not one of the named ones, over an alphabet in NON-standard motif order"""
+    from cogent3 import get_moltype
+    from cogent3.evolve.predicate import MotifChange
+    from cogent3.evolve.substitution_model import TimeReversibleNucleotide
+
+    alpha = get_moltype("dna").alphabet.get_subset("ACGT")
+    return TimeReversibleNucleotide(alphabet=alpha, predicates={"kappa": MotifChange("A", "G") | MotifChange("C", "T")}, name="userHKY")
+
+
+def submodel_user_proj(sm):
+    d = static_proj(sm)
+    d["order"] = [str(m) for m in sm.get_alphabet()]
+    return d
+
+
 def make_notcompleted():
     from cogent3.app.composable import NotCompleted
 
@@ -612,6 +653,8 @@ KINDS = {
     "codon_model": (make_codon_model, {}, static_proj),
     "moltype": (make_moltype, {}, static_proj),
     "alphabet": (make_alphabet, {}, static_proj),
+    "alphabet_char": (make_alphabet_char, ALPHA_OPS, alphabet_proj),
+    "submodel_user": (make_submodel_user, {}, submodel_user_proj),
     "not_completed": (make_notcompleted, {}, nc_proj),
     "model_result": (make_model_result, {}, model_result_proj),
     "generic_result": (make_generic_result, {"add_tree": _gr_add}, generic_result_proj),
